@@ -118,17 +118,20 @@ theorem C20_no_spurious_report (st : St) (e : Ev) (he : ∀ b, e ≠ .lost ∧ e
   | close => exact absurd rfl (he true).2.1
   | lost => exact absurd rfl (he true).1
   | setReset b => exact absurd rfl (he b).2.2
+  | connect => simp only [step]; split <;> simp
 
 /-- `close()` (no reset in progress) leaves the API shut: link gone, listener table empty -/
 theorem C20_close_shuts (st : St) (hnr : st.resetting = false) : Shut (step st .close) :=
   ⟨(C20_close st hnr).2.1, (C20_close st hnr).1⟩
 
 /-- … and it stays shut whatever happens afterwards (responses, ACKs, timers, cancellations, further closes,
-    loss, new requests - which are refused) -/
-theorem C20_shut_forever (st : St) (h : Shut st) (evs : List Ev) : Shut (evs.foldl step st) := by
+    loss, new requests - which are refused) - until `connect()` is called on the object again -/
+theorem C20_shut_forever (st : St) (h : Shut st) (evs : List Ev) (hnc : ∀ e ∈ evs, e ≠ .connect) :
+    Shut (evs.foldl step st) := by
   induction evs generalizing st with
   | nil => exact h
-  | cons e es ih => exact ih _ (shut_step st e h)
+  | cons e es ih =>
+    exact ih _ (shut_step st e (hnc e (List.mem_cons_self ..)) h) (fun x hx => hnc x (List.mem_cons_of_mem _ hx))
 
 /-- **none waits for its response after close - every history, every scheduling order**: in any state the
     event loop can be in once the API is shut, every request that is still running carries a response future
@@ -196,7 +199,7 @@ theorem C20_close_bounded (evs : List Ev) (hnr : (runEvents {} evs).1.resetting 
   have hq2 : (step (step (runEvents {} evs).1 .close) .tick).ready = [] := rest_step _ _ hg1 hq1
   obtain ⟨hcalm, htime⟩ := calm_after_tick _ hg1 hs1 hq1
   refine ⟨?_, htime⟩
-  apply drain_shut _ (good_step _ _ hg1) (shut_step _ _ hs1) hq2
+  apply drain_shut _ (good_step _ _ hg1) (shut_step _ _ (by intro h; cases h) hs1) hq2
   intro r hrm
   exact (hcalm (core r) (List.mem_map.mpr ⟨r, hrm, rfl⟩)).2
 
@@ -289,5 +292,34 @@ example : let st := step (runEvents {} [.start 1 5 true 3 300013, .start 2 1 tru
 example : let st := step (runEvents {} [.start 1 5 false 1 300013, .rxAck 0, .start 2 1 false 1 500026]).1 .lost
     (∀ k, k < 4 → (ticks k st).ready = []) ∧ pot (view st) = 3 ∧ pot (view (ticks 1 st)) = 2 ∧ pot (view (ticks 2 st)) = 1 ∧
     pot (view (ticks 3 st)) = 0 ∧ ((ticks 3 st).reqs.all fun r => r.phase == .done) = true := by decide +kernel
+
+/-- **`connect()` on the same object opens a fresh connection**: the API is open again, the packet numbering starts at
+    0, and nothing else changes - no request, no listener, nothing written, nobody woken -/
+theorem C20_connect_reopens (st : St) (hclosed : st.isOpen = false) :
+    (step st .connect).isOpen = true ∧ (step st .connect).transport = true ∧ (step st .connect).pack = 0 ∧
+    (step st .connect).reqs = st.reqs ∧ (step st .connect).listeners = st.listeners ∧ (step st .connect).out = [] ∧
+    (step st .connect).gen = st.gen + 1 := by
+  simp [step, hclosed]
+
+/-- ... and an acknowledgement that arrives on the new connection does not end the wait of a sender that is still
+    waiting on the old one (it waits on the old protocol object's event): its wait ends by expiry -/
+theorem C20_ack_on_new_connection (st : St) (k : Nat) (r : Req) (hr : r ∈ st.reqs) (hp : r.phase = .waitAck)
+    (hg : r.gen ≠ st.gen) : r ∈ (pre st (.rxAck k)).1.reqs := by
+  simp only [pre]
+  split
+  · refine List.mem_map.mpr ⟨r, hr, ?_⟩
+    rw [if_neg]
+    simp [hp, hg]
+  · exact hr
+
+/-! ## non-vacuity: a 3-fragment request is interrupted by `close()` after its first fragment; `connect()` follows while it
+    still sits in its acknowledgement wait; an ACK 0 on the new connection leaves it waiting (but moves the new
+    connection's numbering to 1); when its wait expires it goes on with fragments 1 and 2 - stamped with the new
+    connection's number - under the message lock, and ends cancelled (its response future was cancelled by the close);
+    only then is the new request 2 written -/
+example : let r := runEvents {} [.start 1 5 false 3 300013, .close, .connect, .start 2 1 false 1 500026, .rxAck 0, .tick, .tick, .tick]
+    (r.2.map fun l => l.filter isWD) = [[.write 1 0 0 3], [], [], [], [], [.write 1 1 1 3], [.write 1 2 1 3],
+      [.done 1 .cancelled, .write 2 0 1 1]] ∧ r.1.gen = 1 ∧ r.1.isOpen = true := by
+  decide +kernel
 
 end Zboss.Host
